@@ -27,6 +27,38 @@ m = {
  "notes": "All checks are generated-input search against explicit oracles (property-based testing / fuzzing). See DESIGN.md. known_findings.json lists repaired defects (fixed:) and any open findings.",
  "not_applicable": [],
 }
+ORACLE_KIND = {
+    "C01": "independent RFC 8907 layout model (reference model, both directions)",
+    "C02": "round-trip and the harness' own wire-width table",
+    "C03": "independent MD5-pad model on raw wire bytes",
+    "C04": "totality / bounds / validity predicates over decoded values",
+    "C05": "scripted-transport segmentation against the packets written (round-trip through the stream)",
+    "C06": "independent header model of the reply to each request",
+    "C07": "invariant over the stamped event log of a scripted connection (one reply per accepted request)",
+    "C08": "reference model of per-session sequence state (model-based, stateful)",
+    "C09": "metamorphic relation: each session alone on a fresh server vs interleaved",
+    "C10": "independent credential evaluator (soundness for all histories, completeness for clean logins)",
+    "C11": "independent policy evaluator (reference model of first-match / whole-string / default-deny)",
+    "C12": "round-trip of the sink record against the bytes sent, with event-log ordering",
+    "C13": "independent admission model over generated configurations and addresses",
+    "C14": "crash/recover oracle plus control logins before and after hostile traffic",
+    "C16": "differential: reloaded loader vs freshly constructed loader",
+    "C17": "harness-owned schedule (scripted listener/connections/deadlines) with an event-log invariant",
+    "C18": "information-flow search for unique tokens in every logger call and in the reference logger's output",
+    "C19": "independent length-consistency classifier of the bytes the server sees",
+    "C20": "invariant: gauges equal their rest values after generated connection histories",
+}
+
+
+def technique(pid, c):
+    if "technique" in c:
+        return c["technique"]
+    t = "property-based testing (rapid); oracle: " + ORACLE_KIND.get(pid, "independent oracle")
+    if c.get("fuzz"):
+        t += "; thorough tier adds native coverage-guided fuzzing (go test -fuzz: %s) with the same oracle" % ", ".join(f["name"] for f in c["fuzz"])
+    return t
+
+
 for p in props:
     pid = p['id']
     if pid in CHECKS:
@@ -40,7 +72,7 @@ for p in props:
          "engine": "rapid-harness",
          "level_claimed": {"category": "exploration", "text": c.get("level_text", c["rule"]), "design_ref": "DESIGN.md §3 " + pid},
          "level_note": c.get("level_note", "; ".join(c.get("assumptions", []))),
-         "technique": c.get("technique", "property-based testing (rapid) against an independent oracle"),
+         "technique": technique(pid, c),
         })
     else:
         m["not_applicable"].append({"property_id": pid, "reason": "check not built yet (in progress; see DESIGN.md §3 %s for the planned generated-input check)" % pid})
